@@ -804,6 +804,9 @@ class Lib:
                 if key in I.models:
                     return I.models[key](ctx, [recv] + args, kwargs)
                 if qn in mod.funcs:
+                    decos = [ast.unparse(d) for d in mod.funcs[qn].decorator_list]
+                    if 'staticmethod' in decos:
+                        return I.call_closure(Closure(mod.funcs[qn], [0], qn, mod), args, dict(kwargs))
                     return I.call_closure(Closure(mod.funcs[qn], [0], qn, mod), [recv] + args, dict(kwargs))
                 raise RaiseSig(ExcVal('AttributeError', (f.name,)))
             if isinstance(recv, ModuleVal) and recv.name.startswith('class:'):
